@@ -2,7 +2,7 @@
    the stack is the render of its inlined twin -- the stack in which, anywhere, reference strings
    are replaced by the YAML of what they render to -- and therefore, when that twin is
    reference-free, the deep merge (Spec/DeepMerge.v) of the twin. *)
-From RV Require Import Model.Yaml Model.Interp Spec.DeepMerge Proofs.ValueFacts Proofs.MappingFacts Proofs.WfFacts
+From RV Require Import Model.Yaml Model.Interp Model.Node Spec.DeepMerge Proofs.ValueFacts Proofs.MappingFacts Proofs.WfFacts
      Proofs.YamlFacts Proofs.InterpFacts Proofs.Mono Proofs.Refinement Proofs.NodeRefines Proofs.Twin.
 
 Section TS.
@@ -164,4 +164,30 @@ Proof.
   - destruct HF as (v' & E & Hu). injection E as <-. exact Hu.
   - destruct e as [k | | p]; [destruct HF as [E|E]; discriminate | destruct HF as (ck & a & b & E); discriminate | exact HF].
   - exact I.
+Qed.
+
+(** C01 + C02 + C04: the rendered parameters of a node are the deep merge of the stack
+    [parameter documents of the recorded classes in walk order; metadata; the node's own
+    parameters] in which every reference is replaced by what it renders to. *)
+Theorem node_params_are_the_deep_merge_of_the_inlined_walk fi cfg tbl f n ndoc loc meta rc r :
+  node_of_yaml loc ndoc = Ok n -> as_reclass cfg meta = Ok rc ->
+  node_render f fi cfg tbl n meta = Ok r ->
+  exists seen docs ry m,
+    NoDup seen /\ Forall2 (class_params cfg tbl) seen docs /\ reclass_doc cfg meta = Some ry /\
+    merge_layers_try (docs ++ [ry; params_doc ndoc]) = Ok m /\
+    (Forall clean_layer (docs ++ [ry; params_doc ndoc]) ->
+     forall ys', Forall layer_ok ys' -> Forall2 (ytw m) (docs ++ [ry; params_doc ndoc]) ys' ->
+     forall g, match deep_merge (S g) ys' with
+               | SOk v => unflag (VMap (n_params r)) = v
+               | SFuel => True
+               | SErr _ => False
+               end).
+Proof.
+  intros Hn Hrc H.
+  destruct (node_params_are_the_merged_stack fi cfg tbl f n ndoc loc meta rc Hn Hrc r H) as (seen & docs & ry & m & Hnd & Hcp & Hry & Hm & Hr).
+  exists seen, docs, ry, m. split; [exact Hnd | split; [exact Hcp | split; [exact Hry | split; [exact Hm|]]]].
+  intros Hc ys' Hok Hy g.
+  assert (Hne : ys' <> []).
+  { intros ->. inversion Hy as [E1 E2|]. destruct docs; discriminate. }
+  exact (stack_with_references_is_the_deep_merge_of_its_inlined_twin g fi _ ys' m _ Hc Hne Hok Hm Hy Hr).
 Qed.
